@@ -288,7 +288,7 @@ func cliMain(args []string) int {
 			for si, sc := range []struct {
 				name string
 				s    *schema.Schema
-			}{{"builtin", builtin}, {"none", none}, {filepath.Join(ext, "schema.json"), external}} {
+			}{{"builtin", builtin}, {"none", none}, {filepath.Join(ext, "schema.json"), external}, {"", builtin}} { // an empty name: the builtin schema
 				want := sc.s.ValidateFile(jf) == nil
 				r := runTool(*valBin, "--schema", sc.name, jf)
 				if (r.Code == 0) != want {
